@@ -37,8 +37,8 @@ Narrow keys for defects of the unchanged tree:
       same top-level step, this channel's stopWriting() hook had sent data (the hook saw a window that
       the interrupted write() was about to use).
   `ext-flush-stopwriting-hook-write-overtakes-pending-entries` - an extended-data stream is sent out
-      of order while a WINDOW_ADJUST is being processed for that channel and the channel's
-      stopWriting() hook wrote data during that same adjust (the flush keeps the not-yet-flushed
+      of order and, earlier in the history, this channel's stopWriting() hook wrote data while a
+      WINDOW_ADJUST for the channel was being processed (the flush keeps the not-yet-flushed
       entries in a local list, so re-entrant writes are queued ahead of them).
   `receiver-window-1-never-replenished` - a stream is incomplete at quiescence, the receiver's
       advertised window size is 1 and the sender has used up everything it was granted (such a
@@ -159,6 +159,7 @@ class Dir:
         self.close_sent = False
         self.peer_close_delivered = False  # S has received R's CLOSE
         self.adjusts_sent_by_receiver = 0
+        self.stop_hook_wrote_in_adjust = False
         self.broken = False
 
     def unsent(self, s):
@@ -251,8 +252,7 @@ class World:
                 self.problem("data-after-close", "data message sent after CHANNEL_CLOSE", w)
             d.sent[stream] += body
             if d.written[stream][:len(d.sent[stream])] != d.sent[stream]:
-                ia = self.in_adjust
-                if stream and ia is not None and ia[:2] == (cid, side) and self.stop_hook_wrote_in_adjust:
+                if stream and d.stop_hook_wrote_in_adjust:
                     self.ctx.count("known_" + KNOWN_FLUSH)
                     self.problem(KNOWN_FLUSH, "while a window adjust flushes the buffered extended-data entries, data written from the stopWriting() "
                                  "hook is queued ahead of the entries not yet flushed (same stream out of order)", w)
@@ -298,7 +298,6 @@ class World:
     # ---- actions ---------------------------------------------------------------------------
     def deliver(self, src):
         self.stop_hook_sent.clear()
-        self.stop_hook_wrote_in_adjust = False
         num, payload = self.stub[src].q.pop(0)
         dst = self.peer(src)
         if num == 93:
@@ -351,7 +350,7 @@ class World:
             self.in_stop_hook.append((idx, side))
             ia = self.in_adjust
             if ia is not None and ia[:2] == (idx, side) and action[0] in ("write", "ext"):
-                self.stop_hook_wrote_in_adjust = True
+                self.dirs[(idx, side)].stop_hook_wrote_in_adjust = True  # sticky: the queue order is decided now, seen later
         try:
             self.app((action[0], idx, side) + action[1:], in_hook=True)
         finally:
@@ -360,7 +359,6 @@ class World:
 
     in_stop_hook = ()
     stop_hook_sent = ()
-    stop_hook_wrote_in_adjust = False
 
     def app(self, act, in_hook=False):
         """One application call on a channel; the model records it at the moment it happens, so
